@@ -14,6 +14,5 @@ CONSTANTS
   RandMin = 6
   RandMax = 11
   RandCount = 0
-  SelfLen = 4
+  SelfLen = 3
 INVARIANTS SelfOK
-VIEW View
